@@ -106,7 +106,7 @@ PROPERTIES={
    assumptions=["the sender respects recv.rdy (en only when rdy)"]),
  'C15': dict(level='other',
    explanation="the uncollect functions are proved deductively; replace_component as a whole is compared with a from-scratch build on enumerated scenarios (bounded)",
-   claim="Mixed. Bounded stand-in: 72 replacement scenarios (attribute child, child read by a parent block, list element, list element two levels down; replace_component, replace_component_with_obj, three replacements in a row; children with registers, inner components, internal constant connections, explicit constraints) give component/signal name sets, nets with writers, adjacency, update blocks with read/write sets, update_ff and explicit constraints equal to those of the same classes built from scratch, leave no '<deleted>' object reachable and simulate identically. Scoped proof: for the _uncollect_vars override of every ComponentLevel (the method replace_component/delete_component use to forget a removed component) and arbitrary (symbolic, unbounded) metadata collections, every all_* collection of the top (update blocks and their host map, U-U constraints, update_ff, RD-U and WR-U constraints, read/write/call maps, update_once blocks, method constraints) loses exactly the removed component's contribution and nothing else (frame), for every iteration order of the sets/dicts involved. The most derived override answers for all levels, so a level that collects but does not uncollect is a failed obligation.",
+   claim="Mixed. Bounded stand-in: 72 replacement scenarios (attribute child, child read by a parent block, list element, list element two levels down; replace_component, replace_component_with_obj, three replacements in a row; children with registers, inner components, internal constant connections, explicit constraints) give component/signal name sets, nets with writers, adjacency, update blocks with read/write sets, update_ff and explicit constraints equal to those of the same classes built from scratch, leave no '<deleted>' object reachable and simulate identically. Scoped proof: for the _uncollect_vars override of every ComponentLevel (the method replace_component/delete_component use to forget a removed component) and arbitrary (symbolic, unbounded) metadata collections, every all_* collection of the top (update blocks and their host map, U-U constraints, update_ff, RD-U and WR-U constraints, read/write/call maps, update_once blocks, method constraints) loses exactly the removed component's contribution and nothing else (frame), for every iteration order of the sets/dicts involved. The most derived override answers for all levels, so a level that collects but does not uncollect is a failed obligation. ComponentLevel1._collect_vars adds exactly the component's update blocks (hosted by that component) and U-U constraints (the inverse of its _uncollect_vars).",
    note="Component._delete_component/_add_component themselves are not under discharged contracts (nested closures with repr/eval: out of reach): equality with a from-scratch build is bounded evidence only. Collections are modelled as SMT arrays over an algebraic object sort; loops over sets/dicts are proved for an arbitrary unseen element against sidecar invariants.",
    extra=['contracts:c15_extra'], require_cover=False,
    assumptions=["the removed component's update blocks are keys of the top's host/read/write/call maps (it was collected before) - precondition of the del statements",
